@@ -24,6 +24,7 @@
 //	ks <i,j,...>                                         -> convertedSelectorPeerAuthentications([pas[i],...]) (direct)
 //	go <i,j,...>                                         -> getOldestPeerAuthn([pas[i],...]) (direct)
 //	il <ns> <labels>                                     -> chains of the real virtualInbound listener (inbound.go)
+//	aw <pod|we|se> <ns> <labels> <metaLabels>            -> K=..   (real ambient index on a fake kube client, ambient_index.go)
 //	aq <ns> <labels> <ports>                             -> K=.. P=.. D=..   (ambient, see ambient.go)
 package main
 
@@ -187,6 +188,9 @@ func execOps(stream, in, outp string) {
 func (s *sut) apply(f []string) (out string) {
 	defer func() {
 		if r := recover(); r != nil {
+			if os.Getenv("VERIF_DEBUG") != "" {
+				fmt.Fprintln(os.Stderr, "panic:", r)
+			}
 			out = "crash"
 		}
 	}()
@@ -268,6 +272,11 @@ func (s *sut) apply(f []string) (out string) {
 			return "bad-op"
 		}
 		return s.inboundListener(wire.Dec(f[1]), parseLabels(f[2]), nil, inboundOpts{protos: strings.Split(f[3], ":")})
+	case "aw":
+		if len(f) != 5 {
+			return "bad-op"
+		}
+		return s.ambientWorkload(f[1], wire.Dec(f[2]), parseLabels(f[3]), parseLabels(f[4]))
 	case "aq":
 		if len(f) != 4 {
 			return "bad-op"
